@@ -329,3 +329,13 @@ func RandSeed(s int64) {
 		rand.Seed(s)
 	}
 }
+
+// At arranges for fn to run in driver context (non-blocking environment action) after d of
+// virtual time.
+func At(d time.Duration, fn func()) {
+	if S == nil {
+		time.AfterFunc(d, fn)
+		return
+	}
+	S.timers = append(S.timers, &timer{at: S.now + int64(d), fn: fn})
+}
